@@ -1,7 +1,7 @@
 (* Monomorphic instances run by the correspondence driver (extracted) and by the in-kernel cross-check (vm_compute):
    labels are integer codes. Definitions only. *)
 From BG Require Import Base DirectedModel DirectedSpec UndirectedModel UndirectedSpec MultiModel WeightedModel MultiSpec ForcedSpec ConvModel TopologyModel.
-From BG Require Import PathsModel PathsCases.
+From BG Require Import PathsModel PathsCases IOModel IOCases.
 Local Open Scope Z_scope.
 (* the alphabet asked about in hasEdge(i,j,l): 0..3 for labelled graphs, the single NoLabel value otherwise *)
 Definition alpha (hs : bool) : list Z := if hs then [0; 1; 2; 3] else [0].
@@ -146,3 +146,30 @@ Definition dw_dj_spec (v : variant) (n : nat) (ops : list wop) (s : nat) (ipred 
   match gfinal (dw_step v) (dm_init n) ops with None => [] | Some m => dj_spec (wadj_of (mg m)) s ipred cs end.
 Definition uw_dj_spec (v : variant) (n : nat) (ops : list wop) (s : nat) (ipred : list Z) (cs : list nat) :=
   match gfinal (uw_step v true) (dm_init n) ops with None => [] | Some m => dj_spec (uwadj_of (mg m)) s ipred cs end.
+(* ---- C13 / C14 / C15: file routines ---- *)
+Definition dop_n (o : @dop Z) : @dop N :=
+  match o with AddEdge s d l f => AddEdge s d (Z.to_N l) f | AddReciprocal a b l f => AddReciprocal a b (Z.to_N l) f | RemoveEdge s d => RemoveEdge s d
+  | RemoveSelfLoops => RemoveSelfLoops | RemoveVertex x => RemoveVertex x | ClearEdges => ClearEdges | Resize n => Resize n
+  | SetLabel s d l f => SetLabel s d (Z.to_N l) f | RemoveDuplicates => RemoveDuplicates end.
+Definition uop_n (o : @uop Z) : @uop N :=
+  match o with UAdd a b l f => UAdd a b (Z.to_N l) f | URemove a b => URemove a b | USelfLoops => USelfLoops | URemoveVertex x => URemoveVertex x
+  | UClear => UClear | UResize n => UResize n | USetLabel a b l f => USetLabel a b (Z.to_N l) f | URemoveDuplicates => URemoveDuplicates end.
+Definition d_binw_case (v : variant) (w n : nat) (ops : list (@dop Z)) :=
+  let g := gfinal (step (hs_of w) v) (init n) (map dop_n ops) in
+  bin_write_case v false w g n ++ match g with Some g0 => [io_err (fun e => [[zbool e]]) (obind (write_binary v false w g0) (fun b => obind (load_binary v false w b) (fun h =>
+      obind (DirectedModel.lift (resize h (Nat.max (size h) (size g0)))) (fun h' => graph_eqb N.eqb h' g0))))] | None => [] end.
+Definition u_binw_case (v : variant) (w n : nat) (ops : list (@uop Z)) :=
+  let g := gfinal (ustep (hs_of w) v) (init n) (map uop_n ops) in
+  bin_write_case v true w g n ++ match g with Some g0 => [io_err (fun e => [[zbool e]]) (obind (write_binary v true w g0) (fun b => obind (load_binary v true w b) (fun h =>
+      obind (DirectedModel.lift (resize h (Nat.max (size h) (size g0)))) (fun h' => graph_eqb N.eqb h' g0))))] | None => [] end.
+(* spec for the writer: one record per edge of the graph the history denotes, sorted by (source, destination); the reloaded graph equals the original *)
+Definition binw_spec (w : nat) (a : option (@sgraph Z)) : list (option (list (list Z))) :=
+  match a with None => [None; None; None] | Some a =>
+    [ Some [zbytes (enc_records w (sort_by rec_leb (map (fun kv => (N.of_nat (fst (fst kv)), N.of_nat (snd (fst kv)), if Nat.eqb w 0 then 0%N else Z.to_N (snd kv))) (se a))))]; None; Some [[1]] ] end.
+Definition d_binw_spec (w n : nat) (ops : list (@dop Z)) := binw_spec w (gsfinal rejected_code spec_step (s_init n) ops).
+Definition u_binw_spec (w n : nat) (ops : list (@uop Z)) := binw_spec w (gsfinal u_rejected_code uspec_step (s_init n) ops).
+Definition d_txtw_case (v : variant) (lk : tlabel) (n : nat) (ops : list (@dop Z)) :=
+  text_write_case v false lk (gfinal (step (match lk with TNone => false | _ => true end) v) (init n) ops).
+Definition u_txtw_case (v : variant) (lk : tlabel) (n : nat) (ops : list (@uop Z)) :=
+  text_write_case v true lk (gfinal (ustep (match lk with TNone => false | _ => true end) v) (init n) ops).
+Definition txtw_spec : list (option (list (list Z))) := [None; Some [[1]]].
